@@ -92,7 +92,7 @@ pub fn main(a: &Args) {
                 inputs::compose(&corpus, &mut rng)
             };
             let fr = if i % 2 == 0 { ["plain", "markdown"][i / 2 % 2].to_string() } else { rng.pick(&fronts[..]).clone() };
-            let text = inputs::wrap_front(&fr, &prose, &mut rng);
+            let text = if rng.chance(1, 4) { crate::c04::render(&fr, rng.next()) } else { inputs::wrap_front(&fr, &prose, &mut rng) };
             inputs.push((text, fr));
         }
         for adv in inputs::adversarial() {
